@@ -29,7 +29,7 @@ ASSUMPTIONS = [
 ]
 COMPONENTS = {"real": ["dali.gear.sequences.*", "dali.gear.colour command classes / selector enums"],
               "stub": ["bus and DT8 control gear (sim/busim.py)", "driver"]}
-PROBES = ["stacked-tridonic", "stacked-luba", "stacked-sci", "tc-edge-value", "msb-mask", "answer-dropped-msb", "answer-dropped-lsb", "answer-garbled", "bad-argument",
+PROBES = ["earlier-calls-in-same-process", "stacked-tridonic", "stacked-luba", "stacked-sci", "tc-edge-value", "msb-mask", "answer-dropped-msb", "answer-dropped-lsb", "answer-garbled", "bad-argument",
           "group-destination", "broadcast-destination", "limit-stored", "limit-selector-by-name", "stale-dtr"]
 
 EDGES = [0, 1, 255, 256, 257, 0x00FF, 0xFF00, 0x7FFF, 0x8000, 65534, 65535]
@@ -107,6 +107,10 @@ def gen_plan(seed, tier="quick"):
     if seed % 40 == 17 and kind != "badarg":
         plan["fault"] = None
         plan["transport"] = ("tridonic", "luba", "sci")[(seed // 40) % 3]
+    h = plans.rng_for(seed, PROP + "-history")
+    if h.random() < 0.3:
+        plan["prelude"] = [[h.choice(["limit", "limit", "set", "query"]), h.randrange(4),
+                            h.choice([tc, tc, tc, 65536, h.getrandbits(16)])] for _ in range(h.randrange(1, 4))]
     if kind == "badarg":
         plan["bad"] = r.choice(["tc-65536", "tc-negative", "tc-huge", "tc-float", "tc-none", "tc-str", "query-int",
                                 "query-str", "limit-tc-65536"])
@@ -152,6 +156,21 @@ def run_plan(plan):
 
     kind = plan["kind"]
     tc = plan["tc"]
+    for pk, psel, ptc in plan.get("prelude") or []:
+        # earlier calls in the same process (same or another value, another selector),
+        # against a scratch unit: judged is only what they may leave behind in the library
+        scratch = busim.Bus([_mk({"short": 9, "groups": 0, "dtr": [1, 2, 3], "values": {}}, 99)])
+        try:
+            if pk == "limit":
+                pg = SetDT8TcLimit(GearShort(9), psel, ptc)
+            elif pk == "set":
+                pg = SetDT8ColourValueTc(GearShort(9), ptc)
+            else:
+                pg = QueryDT8ColourValue(GearShort(9), getattr(colour.QueryColourValueDTR, SPEC_QUERY_NAMES[psel]))
+            busim.run_sequence(pg, scratch, cap=60, log=EventLog())
+        except Exception:                       # noqa: BLE001 - a prelude with a bad argument simply fails
+            pass
+        probes["earlier-calls-in-same-process"] = 1
     faults = {plan["fault"][0]: plan["fault"][1]} if plan["fault"] else {}
     sr = None
     transport = plan.get("transport")
@@ -281,6 +300,10 @@ def run_seed(seed, tier):
 
 
 def shrink(plan):
+    for i in range(len(plan.get("prelude") or [])):
+        p = copy.deepcopy(plan)
+        del p["prelude"][i]
+        yield p
     if plan.get("transport"):
         p = copy.deepcopy(plan)
         del p["transport"]
